@@ -96,6 +96,11 @@ func scenarios() []scenario {
 			{{Kind: "tohtml", Name: "b", Data: 1}},
 			{{Kind: "roottohtml", Data: 0}},
 		}},
+		{"S8-failing-root-first-executions", strings.Replace(baseDefs, `ROOT{{template "a" .}}`, `ROOT{{template "cb" .}}`, 1), [][]call{
+			{{Kind: "execroot", Data: 0}},
+			{{Kind: "roottohtml", Data: 0}, {Kind: "execroot", Data: 1}},
+			{{Kind: "exec", Name: "cb", Data: 0}},
+		}},
 		{"S7-execute-same-root-first-and-repeated", baseDefs, [][]call{
 			{{Kind: "execroot", Data: 0}},
 			{{Kind: "execroot", Data: 1}, {Kind: "execroot", Data: 0}},
@@ -132,7 +137,8 @@ func doCall(t *template.Template, c call) (res string) {
 	vs.Yield(vs.KCall)
 	fmtErr := func(out string, err error) string {
 		if err != nil {
-			return out + " ERR"
+			// the error is part of what a call returns: under every schedule it must be one that some sequential order gives
+			return out + " ERR: " + err.Error()
 		}
 		return out
 	}
